@@ -2,6 +2,7 @@ package cache
 
 import (
 	"errors"
+	"fmt"
 	"sync"
 
 	"github.com/rs/zerolog/log"
@@ -128,6 +129,17 @@ func (ic *ItemCache[K, V]) GetMany(ids ...K) ([]V, error) {
 }
 
 func (ic *ItemCache[K, T]) Count() int {
+	count, err := ic.CountItems()
+	if err != nil {
+		log.Warn().Err(err).Msg("error counting item cache items in bucket")
+		return 0
+	}
+	return count
+}
+
+// Counts the items like Count, a storage error is for the caller to handle: a
+// count of 0 stands for an empty cache, not for a failed read.
+func (ic *ItemCache[K, T]) CountItems() (int, error) {
 	ic.itemsMu.Lock()
 	defer ic.itemsMu.Unlock()
 	bucketCount := 0
@@ -143,8 +155,7 @@ func (ic *ItemCache[K, T]) Count() int {
 		return nil
 	})
 	if err != nil {
-		log.Warn().Err(err).Msg("error counting item cache items in bucket")
-		return 0
+		return 0, fmt.Errorf("could not count items in bucket: %w", err)
 	}
 	cacheCount := 0
 	for _, item := range ic.items {
@@ -152,7 +163,7 @@ func (ic *ItemCache[K, T]) Count() int {
 			cacheCount++
 		}
 	}
-	return cacheCount + bucketCount
+	return cacheCount + bucketCount, nil
 }
 
 // Put an item in the cache, it will be marked as dirty and written to the bucket
